@@ -239,6 +239,12 @@ V = [
      "    if np.isnan(cp):\n", "C08-R5"),
     ("C08", B, "frechet guard removed", POC, "    if force.size < 2:",
      "    if False:", "C08-R3"),
+    ("C08", B, "constant-data guard removed", POC,
+     "    if force.size > 4 and np.max(force) > np.min(force):  # 3 fit parameters",
+     "    if force.size > 4:  # 3 fit parameters", "C08-R6"),
+    ("C08", B, "zero index as divisor", POC,
+     "        params.add('m', value=y[x0]/max(x0, 1))",
+     "        params.add('m', value=y[x0]/x0)", "C08-R6"),
     ("C08", N, "method form of max", POC,
      "bl_rng = np.max(np.abs(baseline - bl_avg)) * 2",
      "bl_rng = 2 * np.abs(baseline - bl_avg).max()", ""),
